@@ -71,7 +71,77 @@ pool_runner!(fullsync_n, AllocatorFullSyncArray,
     },
     |fl: &reactive_mutiny::ogre_std::ogre_queues::full_sync::full_sync_move::FullSyncMove<u32, N>| fl.verif_counters().iter().map(|v| *v as i64).collect::<Vec<i64>>());
 
+/// a payload whose destructor is a scheduling point (so that the schedule can place other threads' operations inside / around it)
+#[derive(Debug, Default)]
+pub struct Dropper(pub u32);
+impl Drop for Dropper { fn drop(&mut self) { verif::yield_point("drop", self as *const Dropper as usize); } }
+
+macro_rules! pooldrop_runner {
+    ($fname:ident, $alloc:ident, $locs:expr, $counters:expr) => {
+        fn $fname<const N: usize>(case: &Case) -> Vec<i64> {
+            let a: &'static $alloc<Dropper, N> = Box::leak(Box::new($alloc::<Dropper, N>::new()));
+            let mut locs = LocMap::new();
+            let fl = a.verif_free_list();
+            $locs(fl, &mut locs, N);
+            let (pool0, slot_size) = a.verif_pool();
+            locs.array(pool0, slot_size, N, 400);
+            verif::reset(case.progs.len());
+            let mut handles = vec![];
+            for (tid, prog) in case.progs.iter().enumerate() {
+                let prog = prog.clone();
+                handles.push(spawn_worker(tid, move || {
+                    let mut held: Vec<u32> = vec![];
+                    for op in prog {
+                        match op.name.as_str() {
+                            "alloc" => match a.alloc_ref() {
+                                Some((r, id)) => { unsafe { std::ptr::write(r, Dropper(1000 + id)) }; held.push(id); ret(tid, 3, id as i64, 0) },
+                                None          => ret(tid, 2, 0, 0),
+                            },
+                            "dealloc" | "dealloc_ref" => match held.pop() {
+                                Some(id) => {
+                                    if op.name == "dealloc" { a.dealloc_id(id) } else { a.dealloc_ref(a.ref_from_id(id)) }
+                                    ret(tid, 1, id as i64, 0)
+                                },
+                                None => { verif::yield_point("yield", 0x10); ret(tid, 5, 0, 0) },
+                            },
+                            other => panic!("pool: unknown op {other}"),
+                        }
+                    }
+                }));
+            }
+            let mut out = run_schedule(&case.sched, &locs);
+            out.push(9);
+            out.extend($counters(fl));
+            wind_down(handles, 0);
+            out
+        }
+    };
+}
+pooldrop_runner!(atomic_drop_n, AllocatorAtomicArray,
+    |fl: &reactive_mutiny::ogre_std::ogre_queues::atomic::atomic_move::AtomicMove<u32, N>, locs: &mut LocMap, n: usize| {
+        let (addrs, slot_size) = fl.verif_addrs();
+        for (i, a) in addrs[..4].iter().enumerate() { locs.cell(*a, i as i64); }
+        locs.array(addrs[4], slot_size, n, 100);
+        locs.cell(0x10, 0);
+    },
+    |fl: &reactive_mutiny::ogre_std::ogre_queues::atomic::atomic_move::AtomicMove<u32, N>| fl.verif_counters().iter().map(|v| *v as i64).collect::<Vec<i64>>());
+pooldrop_runner!(fullsync_drop_n, AllocatorFullSyncArray,
+    |fl: &reactive_mutiny::ogre_std::ogre_queues::full_sync::full_sync_move::FullSyncMove<u32, N>, locs: &mut LocMap, n: usize| {
+        let (addrs, slot_size) = fl.verif_addrs();
+        locs.cell(addrs[0], 0); locs.cell(addrs[1], 1); locs.cell(addrs[2], 4);
+        locs.array(addrs[3], slot_size, n, 100);
+        locs.cell(0x10, 0);
+    },
+    |fl: &reactive_mutiny::ogre_std::ogre_queues::full_sync::full_sync_move::FullSyncMove<u32, N>| fl.verif_counters().iter().map(|v| *v as i64).collect::<Vec<i64>>());
+
 pub fn run(case: &Case) -> Vec<i64> {
+    if case.get("dropper", 0) == 1 {
+        return match (case.gets("fl"), case.get("N", 4)) {
+            ("atomic", 2) => atomic_drop_n::<2>(case), ("atomic", 4) => atomic_drop_n::<4>(case),
+            ("fullsync", 2) => fullsync_drop_n::<2>(case), ("fullsync", 4) => fullsync_drop_n::<4>(case),
+            (fl, n) => panic!("pool: unsupported fl={fl} N={n}"),
+        }
+    }
     match (case.gets("fl"), case.get("N", 4)) {
         ("atomic", 2) => atomic_n::<2>(case), ("atomic", 4) => atomic_n::<4>(case), ("atomic", 8) => atomic_n::<8>(case),
         ("fullsync", 2) => fullsync_n::<2>(case), ("fullsync", 4) => fullsync_n::<4>(case), ("fullsync", 8) => fullsync_n::<8>(case),
